@@ -76,6 +76,7 @@ type Machine struct {
 	pevalMemo map[*Term]uint64
 	pevalNeg  map[*Term]int
 	passerts  []pendingAssert
+	addrBytes map[*Ref]*[8]*Term
 	lastArgs  map[string][]Val
 	observed  []string
 
@@ -206,6 +207,7 @@ type frame struct {
 
 func (m *Machine) resetPath() {
 	m.pc = m.pc[:0]
+	callStack = callStack[:0]
 	m.pcset = map[*Term]bool{}
 	m.dom = map[*Term]bset{}
 	m.dec = 0
@@ -227,6 +229,7 @@ func (m *Machine) resetPath() {
 	m.pevalMemo = map[*Term]uint64{}
 	m.pevalNeg = map[*Term]int{}
 	m.passerts = m.passerts[:0]
+	m.addrBytes = map[*Ref]*[8]*Term{}
 	m.lastArgs = map[string][]Val{}
 	m.observed = nil
 	m.mapIters = map[*Obj]*mapIterState{}
@@ -875,7 +878,7 @@ func (m *Machine) Explore(entry *ssa.Function) {
 		if _, ok := m.endSamples[st]; !ok && msg != "" {
 			m.endSamples[st] = msg
 		}
-		if st == "PANIC" || st == "MEMSAFETY" || st == "ALLOC" {
+		if st == "PANIC" || st == "MEMSAFETY" || st == "ALLOC" || (st == "BUDGET" && m.job.HangIsBug) {
 			id := msg
 			if i := strings.Index(id, " in "); i > 0 && st == "PANIC" {
 				id = id[:i]
@@ -1047,6 +1050,8 @@ func (m *Machine) call(fn *ssa.Function, args []Val, env []Val) Val {
 		endPath("BUDGET", "call depth > %d in %s", m.maxDepth, fn)
 	}
 	m.funcsRun[fn.String()]++
+	callStack = append(callStack, fn.String())
+	defer func() { callStack = callStack[:len(callStack)-1] }()
 	if len(m.watch) > 0 && m.watch[fn.String()] {
 		m.lastArgs[fn.String()] = args
 	}
@@ -1294,6 +1299,16 @@ func (m *Machine) evalInstr(fr *frame, ins ssa.Value) Val {
 			return a[i]
 		case *types.Basic: // string
 			s := m.get(fr, x.X).(Str)
+			if !idx.IsConst() && s.n > 0 {
+				// constant string used as a look-up table: multiplexer instead of a case split on the index
+				if t, ok := m.tableLookup(s.p, 1, s.n, idx); ok {
+					oob := Or(Slt(idx, Const(idx.w, 0)), Sle(Const(idx.w, uint64(s.n)), idx))
+					if m.branch(oob) {
+						endPath("PANIC", "index out of range [symbolic] with length %d in %s", s.n, fr.fn)
+					}
+					return t
+				}
+			}
 			i := m.boundsIndex(idx, s.n, fr.fn)
 			return m.loadBytes(Ptr{s.p.obj, s.p.off + i}, 1)
 		}
